@@ -568,7 +568,11 @@ class SVG:
 
                 group.append(new_el)
 
-                if _try_remove_group(group, push_opacity=False):
+                # a clip-path on <use> lives in the coordinate system of the use;
+                # pushed down onto a target with its own transform it would move
+                # with that transform, so keep the wrapping group in that case
+                keep_group = "clip-path" in group.attrib and "transform" in new_el.attrib
+                if not keep_group and _try_remove_group(group, push_opacity=False):
                     _inherit_attrib(group.attrib, new_el)
                     swaps.append((use_el, new_el))
                 else:
